@@ -714,6 +714,9 @@ func c10Sweeps(tier string) []c10In {
 		{Core: true, Ops: []c10Op{inst, newr, newr, {Kind: "revert-to", Rev: 1, Flags: c10NotBlocked}, sw(c10Op{Kind: "refresh", Rev: 3})}},
 		// a snap without configuration whose configure hook writes some
 		{Ops: []c10Op{inst, sw(c10Op{Kind: "refresh", Flags: hook})}},
+		// C11: remove the current revision of a disabled snap (Current moves to the last kept one), enable, remove all
+		{Core: true, Ops: []c10Op{inst, newr, newr, {Kind: "disable"}, {Kind: "remove-rev", Rev: 3}, {Kind: "enable"},
+			{Kind: "remove-rev", Rev: 1}, {Kind: "setcfg", Rev: 4}, {Kind: "remove", Fail: 9}, {Kind: "remove"}}},
 	}
 	if tier == "thorough" {
 		ins = append(ins,
